@@ -207,6 +207,17 @@ def check_c03(text, stmts, flat, nav=True):
     from sqlparse import tokens as T, sql
     if len(stmts) != len(flat):
         return ('statement-count', 'grouped-vs-flat', f'{len(stmts)} vs {len(flat)}')
+    # all leaves, in order, are the lexer's own (type, value) pairs (a trailing whitespace-only rest may be missing)
+    from sqlparse import lexer
+    raw = list(lexer.tokenize(text))
+    allleaves = [lf for s in stmts for lf in walk_leaves(s, [])]
+    if len(allleaves) > len(raw) or any(not is_ws_type(tt) for tt, _ in raw[len(allleaves):]):
+        return ('leaf-count', 'lexer', f'{len(allleaves)} leaves vs {len(raw)} lexer tokens')
+    for lf, (tt, val) in zip(allleaves, raw):
+        if lf.value != val:
+            return ('leaf-value', 'lexer', f'{lf.value!r} vs lexer {val!r}')
+        if lf.ttype is not tt and not (lf.ttype is T.Operator and tt in (T.Operator, T.Wildcard)):
+            return ('leaf-type', f'lexer:{tname(tt)}->{tname(lf.ttype)}', repr(val))
     for s, f in zip(stmts, flat):
         leaves = walk_leaves(s, [])
         ftoks = f.tokens
